@@ -69,10 +69,14 @@ def _canon_frag(x):
     root = etree.fromstring('<w:pPr xmlns:w="%s">%s</w:pPr>' % (W, x))
     return re.sub(r' xmlns:\w+="[^"]*"', '', ''.join(etree.tostring(c, method='c14n', exclusive=True).decode() for c in root))
 PPR_CANON = {k: _canon_frag(v) for k, v in PPR.items()}
-def style_id(st):
-    return {'N': None, 'H': 'Heading%d' % (st[1] if len(st) > 1 else 1), 'T': 'Title', 'O': 'Quote'}[st[0]]
+HEADING_IDS = {'en': 'Heading%d', 'de': 'berschrift%d'}      # style ids of the built-in headings as English / German Word writes them
+DOC_KEYS = ('stories', 'comments', 'next_uid', 'rpr_table', 'style_ids')
+def doc_core(d): return {k: d[k] for k in DOC_KEYS if k in d}
+_LOC = ['en']      # style-id locale of the document being built (set by build)
+def style_id(st, loc='en'):
+    return {'N': None, 'H': HEADING_IDS[loc] % (st[1] if len(st) > 1 else 1), 'T': 'Title', 'O': 'Quote'}[st[0]]
 def para_xml(p, table):
-    sid = style_id(p['style'])
+    sid = style_id(p['style'], _LOC[0])
     if p['style'][0] == 'N' and p['style'][1]: sid = 'BoldNormal'      # never used: Normal-with-bold is a document-level switch
     inner = ('<w:pStyle w:val="%s"/>' % sid if sid else '') + PPR.get(p['ppr'], '')
     ppr = '<w:pPr>%s</w:pPr>' % inner if inner else ''
@@ -95,15 +99,19 @@ def block_xml(b, table):
     grid = '<w:tblGrid>%s</w:tblGrid>' % ('<w:gridCol w:w="2000"/>' * ncols)
     return '<w:tbl><w:tblPr><w:tblW w:w="0" w:type="auto"/></w:tblPr>%s%s</w:tbl>' % (grid, ''.join(rows))
 
-STYLES = ('<?xml version="1.0" encoding="UTF-8" standalone="yes"?><w:styles %s>'
-          '<w:style w:type="paragraph" w:default="1" w:styleId="Normal"><w:name w:val="Normal"/>%%s</w:style>'
-          '%s'
-          '<w:style w:type="paragraph" w:styleId="Title"><w:name w:val="Title"/><w:basedOn w:val="Normal"/></w:style>'
-          '<w:style w:type="paragraph" w:styleId="Quote"><w:name w:val="Quote"/><w:basedOn w:val="Normal"/></w:style>'
-          '<w:style w:type="paragraph" w:styleId="CommentText"><w:name w:val="annotation text"/><w:basedOn w:val="Normal"/></w:style>'
-          '<w:style w:type="character" w:default="1" w:styleId="DefaultParagraphFont"><w:name w:val="Default Paragraph Font"/></w:style>'
-          '<w:style w:type="character" w:styleId="CommentReference"><w:name w:val="annotation reference"/></w:style>'
-          '</w:styles>') % (NS, ''.join('<w:style w:type="paragraph" w:styleId="Heading%d"><w:name w:val="Heading %d"/><w:basedOn w:val="Normal"/></w:style>' % (i, i) for i in range(1, 7)))
+def styles_xml(normal_rpr, loc):
+    """built-in headings carry the internal names Word writes ('heading N'); their ids depend on the language of the Word that
+    created the file"""
+    heads = ''.join('<w:style w:type="paragraph" w:styleId="%s"><w:name w:val="heading %d"/><w:basedOn w:val="Normal"/></w:style>' % (HEADING_IDS[loc] % i, i) for i in range(1, 10))
+    return ('<?xml version="1.0" encoding="UTF-8" standalone="yes"?><w:styles %s>'
+            '<w:style w:type="paragraph" w:default="1" w:styleId="Normal"><w:name w:val="Normal"/>%s</w:style>'
+            '%s'
+            '<w:style w:type="paragraph" w:styleId="Title"><w:name w:val="Title"/><w:basedOn w:val="Normal"/></w:style>'
+            '<w:style w:type="paragraph" w:styleId="Quote"><w:name w:val="Quote"/><w:basedOn w:val="Normal"/></w:style>'
+            '<w:style w:type="paragraph" w:styleId="CommentText"><w:name w:val="annotation text"/><w:basedOn w:val="Normal"/></w:style>'
+            '<w:style w:type="character" w:default="1" w:styleId="DefaultParagraphFont"><w:name w:val="Default Paragraph Font"/></w:style>'
+            '<w:style w:type="character" w:styleId="CommentReference"><w:name w:val="annotation reference"/></w:style>'
+            '</w:styles>') % (NS, normal_rpr, heads)
 CT_HEAD = ('<?xml version="1.0" encoding="UTF-8" standalone="yes"?><Types xmlns="http://schemas.openxmlformats.org/package/2006/content-types">'
            '<Default Extension="xml" ContentType="application/xml"/><Default Extension="rels" ContentType="application/vnd.openxmlformats-package.relationships+xml"/>'
            '<Default Extension="png" ContentType="image/png"/>'
@@ -116,6 +124,7 @@ RT = 'http://schemas.openxmlformats.org/officeDocument/2006/relationships/'
 def build(doc, extras=None):
     """doc -> DOCX bytes. extras: optional {'parts': [(name, content_type, bytes, reltype)], 'comments_name': str, 'normal_bold': bool}"""
     extras = extras or {}
+    _LOC[0] = doc.get('style_ids', 'en')
     table = doc.get('rpr_table', [])
     stories = doc['stories']
     body = [s for s in stories if s['kind'] == 1][0]
@@ -151,7 +160,7 @@ def build(doc, extras=None):
     for k, (name, ctype, data, reltype) in enumerate(extras.get('parts', [])):
         files[name] = data; rels.append(('rId%d' % (40 + k), reltype, name[len('word/'):] if name.startswith('word/') else '../' + name))
         if not name.endswith('.png'): ct.append('<Override PartName="/%s" ContentType="%s"/>' % (name, ctype))
-    files['word/styles.xml'] = STYLES % ('<w:rPr><w:b/></w:rPr>' if extras.get('normal_bold') else '')
+    files['word/styles.xml'] = styles_xml('<w:rPr><w:b/></w:rPr>' if extras.get('normal_bold') else '', _LOC[0])
     files['word/settings.xml'] = '<?xml version="1.0" encoding="UTF-8" standalone="yes"?><w:settings %s><w:zoom w:percent="100"/>%s</w:settings>' % (NS, '<w:evenAndOddHeaders/>' if extras.get('even_odd') else '')
     files['[Content_Types].xml'] = ''.join(ct) + '</Types>'
     files['_rels/.rels'] = ('<?xml version="1.0" encoding="UTF-8" standalone="yes"?><Relationships xmlns="%s"><Relationship Id="rId1" Type="%sofficeDocument" Target="word/document.xml"/></Relationships>' % (PR, RT))
@@ -169,7 +178,7 @@ class Reader:
     def __init__(self, table=None):
         self.table = table if table is not None else []
         self.uid = 0; self.pid = 0
-        self.pprs = {}
+        self.pprs = {}; self.style_names = {}
     def fresh(self): self.uid += 1; return self.uid
     def rpr(self, r):
         rp = r.find(q('rPr'))
@@ -211,7 +220,9 @@ class Reader:
             ps = ppr.find(q('pStyle'))
             if ps is not None:
                 v = ps.get(q('val')) or ''
-                m = re.match(r'Heading(\d+)$', v)
+                # the style's NAME decides, as in Word (ids are language dependent); an id the document does not define is no style at all
+                v = self.style_names.get(v, 'Normal' if self.style_names else v)
+                m = re.match(r'[Hh]eading ?(\d+)$', v)
                 style = ['H', int(m.group(1))] if m else ['T'] if v == 'Title' else ['N', False] if v == 'Normal' else ['O']
             rest = ''.join(canon(c) for c in ppr if c.tag != q('pStyle'))
             rest = re.sub(r' xmlns:\w+="[^"]*"', '', rest)
@@ -244,6 +255,10 @@ class Reader:
 def read(b, table=None):
     z = zipfile.ZipFile(io.BytesIO(b))
     rd = Reader(table)
+    if 'word/styles.xml' in z.namelist():
+        for st in etree.fromstring(z.read('word/styles.xml')).findall(q('style')):
+            nm = st.find(q('name'))
+            if nm is not None and st.get(q('styleId')): rd.style_names[st.get(q('styleId'))] = nm.get(q('val')) or ''
     root = etree.fromstring(z.read('word/document.xml'))
     body = root.find(q('body'))
     rels = {}
@@ -267,7 +282,8 @@ def read(b, table=None):
     stories.append({'kind': 1, 'blocks': rd.blocks(body), 'part': 'word/document.xml'})
     for f, t in foots: stories.append({'kind': 2, 'blocks': rd.blocks(etree.fromstring(z.read(f))), 'part': f, 'hf': t})
     comments = read_comments(z)
-    return {'stories': stories, 'comments': comments, 'next_uid': rd.uid + 1000, 'rpr_table': rd.table}
+    loc = 'de' if any(k.startswith('berschrift') for k in rd.style_names) else 'en'
+    return {'stories': stories, 'comments': comments, 'next_uid': rd.uid + 1000, 'rpr_table': rd.table, 'style_ids': loc}
 
 def comment_part_names(z):
     names = []
